@@ -626,6 +626,59 @@ def r16_5(ctx, repo):
     ctx.floor('R16.5', 20)
 
 
+def r16_7(ctx, repo):
+    """A class that keeps the seed it was constructed with hands it to every
+    stochastic call it makes (siblings: the constructor does; a
+    re-initialisation that does not draws unreproducible values)."""
+    rule = 'R16.7'
+    n = 0
+    for cname, c in sorted(repo.classes.items()):
+        seed_fields = set()
+        for mname, fn in c.methods.items():
+            params = {a.arg for a in fn.args.args + fn.args.kwonlyargs}
+            for a in ast.walk(fn):
+                if isinstance(a, ast.Assign) and len(a.targets) == 1 \
+                        and isinstance(a.targets[0], ast.Attribute) \
+                        and U(a.targets[0].value) == 'self' \
+                        and isinstance(a.value, ast.Name) \
+                        and a.value.id in params and 'seed' in a.value.id:
+                    seed_fields.add('self.' + a.targets[0].attr)
+        if not seed_fields:
+            continue
+        for k in [cname] + repo.subclasses(cname, strict=True):
+            for mname, fn in sorted(repo.cls(k).methods.items()):
+                for call in ast.walk(fn):
+                    if not (isinstance(call, ast.Call) and isinstance(
+                            call.func, ast.Attribute)
+                            and call.func.attr in STOCHASTIC_METHODS
+                            and U(call.func.value) != 'self'):
+                        continue
+                    construct = '%s.%s' % (k, mname)
+                    where = repo.loc(call, k, mname)
+                    n += 1
+                    args = list(call.args) + [kw.value
+                                              for kw in call.keywords]
+                    local_seed = {a.arg for a in fn.args.args
+                                  if 'seed' in a.arg}
+                    if any(U(x) in seed_fields or (isinstance(x, ast.Name)
+                                                   and x.id in local_seed)
+                           for a in args for x in ast.walk(a)):
+                        ctx.ok(rule, where, construct,
+                               '`%s` receives the stored seed' % U(
+                                   call.func))
+                    else:
+                        ctx.violation(
+                            rule, where, construct,
+                            'stored seed not used %s' % call.func.attr,
+                            '%s keeps the seed it was built with (%s) but '
+                            '`%s(..)` is called without it: the values drawn '
+                            'here do not depend on the seed (and the global '
+                            'stream is re-seeded from entropy)' % (
+                                cname, ', '.join(sorted(seed_fields)),
+                                U(call.func)))
+    ctx.floor(rule, 2)
+
+
 def r16_4(ctx, repo):
     """Generators are built per call: never at module/class level and never
     stored on self."""
